@@ -83,9 +83,60 @@ def eval_ab(case):
     return mkres(case, nt=True, classes=['engine-B', 'rate:' + beh.split(':')[0], 'conns:%d' % min(peer_b.nconn, 99)], fails=fails, info={'connections': peer_b.nconn})
 
 
+def eval_multi(case):
+    """Several targets in one invocation: the bounds hold for each target on its own (every target is a server of its
+    own at its own address)."""
+    import os
+    skip = case['skip_rate']
+    net = fakenet.FakeNet()
+    peers, hosts = [], []
+    for i, spec in enumerate(case['specs']):
+        p = fakenet.peer_from_spec(dict(spec))
+        h = 'm%d' % i
+        net.add(h, 22, p, ips=[(2, '10.19.0.%d' % (i + 1))])
+        peers.append(p)
+        hosts.append(h)
+    tf = drive.tmpfile('\n'.join(hosts) + '\n')
+    argv = ['-n'] + case.get('argv', []) + (['--skip-rate-test'] if skip else []) + ['--threads', str(case['threads']), '-T', tf]
+    try:
+        with Counters() as cnt:
+            r = drive.run_cli(argv, net)
+    finally:
+        os.unlink(tf)
+    fails = []
+    if r.hang:
+        return mkres(case, nt=True, classes=['multi'], fails=[['hang', r.brief()]])
+    for i, (p, spec) in enumerate(zip(peers, case['specs'])):
+        keys, kex = spec.get('key', []), spec.get('kex', [])
+        ngex = len([k for k in dict.fromkeys(kex) if k in GEX])
+        nkeys = probeable_keys(keys)
+        nb = [c for c in p.conns if c.nonblocking]
+        bl = [c for c in p.conns if not c.nonblocking]
+        if len(bl) > 1 + nkeys + 9 * ngex:
+            fails.append(['too-many-audit-connections', 'target %d of %d: %d handshake/probe connections, bound %d' % (i + 1, len(peers), len(bl), 1 + nkeys + 9 * ngex)])
+        if skip and nb:
+            fails.append(['rate-check-ran-despite-skip-option', 'target %d of %d in a -T run: %d connections' % (i + 1, len(peers), len(nb))])
+        if len(nb) > RATE_MAX + RATE_CONCURRENT:
+            fails.append(['rate-check-connections-unbounded-in-multi-target-run', 'target %d of %d: %d rate-check connections to this one server (bound %d + %d); counts per server %r' % (i + 1, len(peers), len(nb), RATE_MAX, RATE_CONCURRENT, [len([c for c in q.conns if c.nonblocking]) for q in peers])])
+        for c in p.conns:
+            if c.kex_exchanges > 1:
+                fails.append(['more-than-one-kex-request-on-a-connection', 'target %d conn %d: %d' % (i + 1, c.idx, c.kex_exchanges)])
+            if c.nonblocking and (c.kex_exchanges or c.bytes_from_client):
+                fails.append(['data-sent-on-rate-check-connection', 'target %d conn %d' % (i + 1, c.idx)])
+    leaked = [x for x in net.sockrecs if x['connected'] and not x['closed'] and not x['gc']]
+    if leaked:
+        fails.append(['connection-left-open-at-exit', 'argv %r: %d socket(s)' % (argv, len(leaked))])
+    for name in ('run', '_run', 'worker_process', '_worker_process', 'interactive_rate_test'):
+        if cnt.calls.get(name):
+            fails.append(['dos-feature-entered-without-option', '%s called %d time(s) with argv %r' % (name, cnt.calls[name], argv)])
+    return mkres(case, nt=True, classes=['multi', 'n:%d' % len(peers), 'rate:' + ('skipped' if skip else 'on'), 'threads:%d' % case['threads']], fails=fails[:6])
+
+
 def eval_case(case):
     if case.get('kind') == 'ab':
         return eval_ab(case)
+    if case.get('kind') == 'multi':
+        return eval_multi(case)
     spec = dict(case['spec'])
     fails = []
     skip = case['skip_rate']
@@ -213,11 +264,20 @@ def run(ctx):
             for skip in (False, True):
                 s1.append({'spec': spec, 'skip_rate': skip, 'argv': argv, 'ssh1': True})
     ctx.map(s1)
+    multi = []
+    for n in (2, 3, 5):
+        for threads in (1, 2, n):
+            for skip in (False, True):
+                for j, argv in enumerate(([], ['-j'], ['-P', 'Hardened OpenSSH Server v9.9 (version 1)'])):
+                    specs = [dict(base, kex=[['curve25519-sha256'], ['diffie-hellman-group14-sha256', 'diffie-hellman-group-exchange-sha256'], ['diffie-hellman-group-exchange-sha1', 'curve25519-sha256']][(i + j) % 3],
+                                  rate=['normal', 'close', 'mixed:3:close', 'greet:Exceeded MaxStartups\r\n'][(i + n) % 4]) for i in range(n)]
+                    multi.append({'kind': 'multi', 'specs': specs, 'threads': threads, 'skip_rate': skip, 'argv': argv})
+    ctx.map(multi)
     ab = []
     for beh in ['normal', 'close', 'greet:Exceeded MaxStartups\r\n', 'stall'] + ([] if ctx.quick else ['greet:HTTP/1.1 400 Bad Request\r\n\r\n', 'greet:SSH']):
         for kexes in ((['curve25519-sha256'],) if ctx.quick else (['curve25519-sha256'], ['diffie-hellman-group14-sha256', 'diffie-hellman-group-exchange-sha256'])):
             ab.append({'kind': 'ab', 'spec': dict(base, kex=kexes), 'rate_behaviour': beh})
     ctx.map(ab, chunk=1)
     ctx.note(rate_grid_cases=len(grid), traces_validated_against_impl=len(ab))
-    return ctx.finish('fault_enumeration', 'Hypothesis servers: 1-5 key exchanges (probe-capable, GEX, unknown), 1-8 host-key types over the whole probe table, every moduli subset x 3 selection styles, 0-2 faults (close / stall / reset / truncation / wrong type / garbage / duplicate / debug messages) on any message of connections 0-5, behaviour towards the rate check (answers, closes at once, stalls, resets, refuses, greets with MaxStartups / HTTP / partial / binary text, or answers only every k-th connection), with and without --skip-rate-test, standard and policy audits; plus a dedicated rate-check grid; invariants over the connection log; non-trivial = at least 3 connections or a misbehaving server',
+    return ctx.finish('fault_enumeration', 'Hypothesis servers: 1-5 key exchanges (probe-capable, GEX, unknown), 1-8 host-key types over the whole probe table, every moduli subset x 3 selection styles, 0-2 faults (close / stall / reset / truncation / wrong type / garbage / duplicate / debug messages) on any message of connections 0-5, behaviour towards the rate check (answers, closes at once, stalls, resets, refuses, greets with MaxStartups / HTTP / partial / binary text, or answers only every k-th connection), with and without --skip-rate-test, standard and policy audits; plus a dedicated rate-check grid and runs over 2-5 targets (each at its own address, 1..n threads, rate check on and skipped); invariants over the connection log; non-trivial = at least 3 connections or a misbehaving server',
                       assumptions=['the virtual clock advances a fixed quantum per clock read and by the timeout per empty select, so the 1.5 s rate-check window always ends', 'sockets reclaimed by the garbage collector count as closed at exit'])
